@@ -4,6 +4,7 @@ import gzip
 import io
 import os
 import shutil
+import tempfile
 import subprocess
 import sys
 
@@ -83,7 +84,8 @@ def matrix_case(draw):
         seq = draw(gen.sequence_spec(max_len=5, max_desc=3))
     else:
         seq = draw(avro_seq())
-    return {"container": container, "codec": codec, "seq": seq}
+    # the output path may already hold an older, longer file (clobber is the default): it is replaced, not patched
+    return {"container": container, "codec": codec, "seq": seq, "preexisting": draw(st.sampled_from([None, None, "longer"]))}
 
 
 def read_all(factory):
@@ -113,6 +115,17 @@ class NoPeekRaw(io.RawIOBase):
         return len(d)
 
 
+def _rewound(f):
+    f.seek(0)
+    return f
+
+
+def _filled(f, data):
+    f.write(data)
+    f.seek(0)
+    return f
+
+
 def check_matrix(case, ctx):
     from flow.record import RecordReader, RecordWriter
 
@@ -137,6 +150,10 @@ def check_matrix(case, ctx):
             url = "avro://" + path
             hidden_url_prefix = "avro://"
             expect_cls = "AvroReader"
+        if case.get("preexisting"):
+            ctx.cls("output-path:preexisting-longer-file")
+            with open(path, "wb") as f:
+                f.write(b"\xaa" * (4 << 20))
         w = RecordWriter(url)
         try:
             for r in records:
@@ -145,6 +162,9 @@ def check_matrix(case, ctx):
         finally:
             w.close()
         data = open(path, "rb").read()
+        if case.get("preexisting") and len(data) >= (4 << 20) and data.endswith(b"\xaa" * 64):
+            raise Violation(base + "/old-content-left", "the %d-byte file that was at the output path is still partly there "
+                            "(%d bytes now, old tail present)" % (4 << 20, len(data)))
         if not data.startswith(magic):
             raise Violation(base + "/wrong-magic", "file written to %s starts with %r, expected %r"
                             % (os.path.basename(path), data[:6], magic))
@@ -187,6 +207,12 @@ def check_matrix(case, ctx):
             ("bytesio", lambda: RecordReader(fileobj=io.BytesIO(data))),
             ("raw-nopeek", lambda: RecordReader(fileobj=NoPeekRaw(data))),
             ("unbuffered-file", lambda: RecordReader(fileobj=open(path, "rb", buffering=0))),
+            # read/write file objects positioned at the start: their .mode does not start with 'r'
+            ("rplus-file", lambda: RecordReader(fileobj=open(path, "r+b"))),
+            ("aplus-file-rewound", lambda: RecordReader(fileobj=_rewound(open(path, "a+b")))),
+            ("wplus-file-refilled", lambda: RecordReader(fileobj=_filled(open(os.path.join(tmp, "wplus.bin"), "w+b"), data))),
+            ("spooled-tempfile", lambda: RecordReader(fileobj=_filled(tempfile.SpooledTemporaryFile(max_size=1 << 30), data))),
+            ("tempfile", lambda: RecordReader(fileobj=_filled(tempfile.TemporaryFile(), data))),
         ]
         for wname, factory in ways:
             res = impl(read_all, factory)
